@@ -172,9 +172,11 @@ func (t *Tape) fill() error {
 	} else if t.wordsIn > 0 {
 		t.ExtraWords++
 	}
-	t.wordsIn++
+	if t.announced {
+		t.wordsIn++
+	}
 	if t.LogOn {
-		t.Log = append(t.Log, Drawn{t.bound, t.announced, t.wordsIn > 1, w})
+		t.Log = append(t.Log, Drawn{t.bound, t.announced, t.announced && t.wordsIn > 1, w})
 	}
 	binary.BigEndian.PutUint32(t.buf[:], w)
 	t.off = 0
